@@ -705,9 +705,14 @@ class TransformToGaussian(OutputWarper):
       base_for_transform = stats.rankdata(labels_arr_flattened, method='dense')
     else:
       base_for_transform = labels_arr_flattened
+    base_range = np.max(base_for_transform) - np.min(base_for_transform)
+    if base_range == 0:
+      # All labels are equal (e.g. one huge feasible value that absorbed the
+      # offset of InfeasibleWarperComponent): same convention as the pipeline.
+      return np.zeros(labels_arr.shape)
     base_for_transform_normalized = (
         base_for_transform - np.min(base_for_transform)
-    ) / (np.max(base_for_transform) - np.min(base_for_transform))
+    ) / base_range
     clip = tfp.bijectors.SoftClip(
         low=np.array(self.softclip_low, dtype=labels_arr.dtype),
         high=np.array(self.softclip_high, dtype=labels_arr.dtype),
